@@ -522,13 +522,13 @@ Variable panics : ssite -> bool.
 Variable sw : save_switches.
 Variable root : container.
 
-(* the four shapes of an element object, read back with abstract field values *)
-Definition read_el_tail (ptr : Res pointer) (ex ty : json) (temps : Res (list (text * value))) : Res (option element) :=
+(* the shapes of an element object, read back with abstract field values *)
+Definition read_el_tail (ptr : Res pointer) (ex ty : json) (fs : Z) (temps : Res (list (text * value))) : Res (option element) :=
   do t <- or_bad "Invalid push/pop type" (j_as_i64 ty);
   do pp <- pushpop_from_value (to_u64 t);
   do p <- ptr;
   do tm <- temps;
-  Ok (Some (mkElement p (match j_as_bool ex with Some b => b | None => false end) tm pp 0 0%Z)).
+  Ok (Some (mkElement p (match j_as_bool ex with Some b => b | None => false end) tm pp 0 fs)).
 
 Definition read_el_ptr (cps : text) (ij : json) : Res pointer :=
   let r := content_at_path root (path_parse (Some cps)) in
@@ -536,28 +536,56 @@ Definition read_el_ptr (cps : text) (ij : json) : Res pointer :=
   do idx <- or_bad "Invalid pointer index" (j_as_i64 ij);
   Ok (mkPtr c (wrap32 idx)).
 
-Lemma read_el_shape_00 ex ty :
-  read_element root (JObj [(T "exp", ex); (T "type", ty)]) = read_el_tail (Ok ptr_null) ex ty (Ok []).
-Proof. reflexivity. Qed.
-Lemma read_el_shape_01 ex ty tm :
-  read_element root (JObj [(T "exp", ex); (T "type", ty); (T "temp", JObj tm)])
-  = read_el_tail (Ok ptr_null) ex ty (jobject_to_hashmap_values tm).
-Proof. reflexivity. Qed.
-Lemma read_el_shape_10 cps ij ex ty :
-  read_element root (JObj [(T "cPath", JStr cps); (T "idx", ij); (T "exp", ex); (T "type", ty)])
-  = read_el_tail (read_el_ptr cps ij) ex ty (Ok []).
-Proof. reflexivity. Qed.
-Lemma read_el_shape_11 cps ij ex ty tm :
-  read_element root (JObj [(T "cPath", JStr cps); (T "idx", ij); (T "exp", ex); (T "type", ty); (T "temp", JObj tm)])
-  = read_el_tail (read_el_ptr cps ij) ex ty (jobject_to_hashmap_values tm).
-Proof. reflexivity. Qed.
+(* the optional "fnStart" entry and what the loader makes of it *)
+Definition fs_field (fsx : option json) : list (text * json) :=
+  match fsx with Some j => [(T "fnStart", j)] | None => [] end.
+Definition fs_read (fsx : option json) : Z :=
+  if ssw_fstart_saved sw
+  then match obind fsx j_as_i64 with Some z => wrap32 z | None => 0%Z end
+  else 0%Z.
+
+Lemma read_el_shape_00 ex ty fsx :
+  read_element sw root (JObj ([(T "exp", ex); (T "type", ty)] ++ fs_field fsx))
+  = read_el_tail (Ok ptr_null) ex ty (fs_read fsx) (Ok []).
+Proof. destruct fsx; reflexivity. Qed.
+Lemma read_el_shape_01 ex ty fsx tm :
+  read_element sw root (JObj ([(T "exp", ex); (T "type", ty)] ++ fs_field fsx ++ [(T "temp", JObj tm)]))
+  = read_el_tail (Ok ptr_null) ex ty (fs_read fsx) (jobject_to_hashmap_values tm).
+Proof. destruct fsx; reflexivity. Qed.
+Lemma read_el_shape_10 cps ij ex ty fsx :
+  read_element sw root (JObj ([(T "cPath", JStr cps); (T "idx", ij); (T "exp", ex); (T "type", ty)] ++ fs_field fsx))
+  = read_el_tail (read_el_ptr cps ij) ex ty (fs_read fsx) (Ok []).
+Proof. destruct fsx; reflexivity. Qed.
+Lemma read_el_shape_11 cps ij ex ty fsx tm :
+  read_element sw root (JObj ([(T "cPath", JStr cps); (T "idx", ij); (T "exp", ex); (T "type", ty)]
+                              ++ fs_field fsx ++ [(T "temp", JObj tm)]))
+  = read_el_tail (read_el_ptr cps ij) ex ty (fs_read fsx) (jobject_to_hashmap_values tm).
+Proof. destruct fsx; reflexivity. Qed.
+
+(* the entry as write_element produces it *)
+Definition fs_written (fstart : Z) : option json :=
+  if ssw_fstart_saved sw && negb (fstart =? 0)%Z then Some (JInt fstart) else None.
+Lemma fs_written_field fstart :
+  (if ssw_fstart_saved sw && negb (fstart =? 0)%Z then [jfield "fnStart" (JInt fstart)] else [])
+  = fs_field (fs_written fstart).
+Proof. unfold fs_written. destruct (ssw_fstart_saved sw && negb (fstart =? 0)%Z); reflexivity. Qed.
+Lemma fs_written_read fstart : in_i32 fstart = true ->
+  fs_read (fs_written fstart) = if ssw_fstart_saved sw then fstart else 0%Z.
+Proof.
+  intros H. unfold fs_read, fs_written. destruct (ssw_fstart_saved sw); [|reflexivity]. cbn [andb].
+  destruct (fstart =? 0)%Z eqn:E; cbn [negb obind].
+  - apply Z.eqb_eq in E. now subst.
+  - rewrite (in_i32_as_i64 _ H). now rewrite wrap32_id.
+Qed.
 
 Lemma element_roundtrip e : wf_element_b root e = true ->
-  exists j, write_element sw root e = Ok j /\ read_element root j = Ok (Some (norm_element sw e)).
+  exists j, write_element sw root e = Ok j /\ read_element sw root j = Ok (Some (norm_element sw e)).
 Proof.
-  unfold wf_element_b. intros H. apply andb_true_iff in H as [Hp Ht].
-  destruct e as [[pc pi] inexpr temps ty evalh fstart]. cbn [el_ptr el_temps] in *.
-  unfold write_element, norm_element, norm_ptr, ptr_is_null. cbn [el_ptr el_inexpr el_temps el_type ptr_c ptr_i].
+  unfold wf_element_b. intros H. apply andb_true_iff in H as [H Hfs]. apply andb_true_iff in H as [Hp Ht].
+  destruct e as [[pc pi] inexpr temps ty evalh fstart]. cbn [el_ptr el_temps el_fstart] in *.
+  unfold write_element, norm_element, norm_ptr, ptr_is_null.
+  cbn [el_ptr el_inexpr el_temps el_type el_fstart ptr_c ptr_i].
+  rewrite fs_written_field. rewrite <- (fs_written_read fstart Hfs).
   destruct (valmap_roundtrip sw temps Ht) as (tm & Hwd & Hrd).
   unfold elem_ptr_ok_b in Hp. cbn [ptr_c ptr_i] in Hp.
   destruct pc as [cp|].
@@ -568,21 +596,26 @@ Proof.
     assert (Hptr : read_el_ptr (path_string pa) (JInt pi) = Ok (mkPtr (Some cp) pi)).
     { unfold read_el_ptr. rewrite Hpos, Hcont. rewrite (in_i32_as_i64 pi Hi). cbn. now rewrite wrap32_id. }
     destruct temps as [|t0 temps'].
-    + eexists. split; [reflexivity|]. cbn [is_nil app]. rewrite read_el_shape_10, Hptr.
-      destruct ty; reflexivity.
-    + eexists. split; [reflexivity|]. cbn [is_nil app]. rewrite Hwd. rewrite read_el_shape_11, Hptr, Hrd.
-      destruct ty; reflexivity.
+    + eexists. split; [reflexivity|]. cbn [is_nil]. rewrite app_nil_r.
+      change ([(T "cPath", JStr (path_string pa)); (T "idx", JInt pi)] ++ [(T "exp", JBool inexpr); (T "type", JInt (pushpop_ord ty))] ++ fs_field (fs_written fstart))
+        with ([(T "cPath", JStr (path_string pa)); (T "idx", JInt pi); (T "exp", JBool inexpr); (T "type", JInt (pushpop_ord ty))] ++ fs_field (fs_written fstart)).
+      rewrite read_el_shape_10, Hptr. destruct ty; reflexivity.
+    + eexists. split; [reflexivity|]. cbn [is_nil]. rewrite Hwd.
+      change ([(T "cPath", JStr (path_string pa)); (T "idx", JInt pi)] ++ [(T "exp", JBool inexpr); (T "type", JInt (pushpop_ord ty))] ++ fs_field (fs_written fstart) ++ [(T "temp", JObj tm)])
+        with ([(T "cPath", JStr (path_string pa)); (T "idx", JInt pi); (T "exp", JBool inexpr); (T "type", JInt (pushpop_ord ty))] ++ fs_field (fs_written fstart) ++ [(T "temp", JObj tm)]).
+      rewrite read_el_shape_11, Hptr, Hrd. destruct ty; reflexivity.
   - cbn [bind]. unfold jfield.
     destruct temps as [|t0 temps'].
-    + eexists. split; [reflexivity|]. cbn [is_nil app]. rewrite read_el_shape_00.
-      destruct ty; reflexivity.
-    + eexists. split; [reflexivity|]. cbn [is_nil app]. rewrite Hwd. rewrite read_el_shape_01, Hrd.
-      destruct ty; reflexivity.
+    + eexists. split; [reflexivity|]. cbn [is_nil app]. rewrite app_nil_r.
+      rewrite read_el_shape_00. destruct ty; reflexivity.
+    + eexists. split; [reflexivity|]. cbn [is_nil]. rewrite Hwd. cbn [app].
+      change ((T "exp", JBool inexpr) :: (T "type", JInt (pushpop_ord ty)) :: fs_field (fs_written fstart) ++ [(T "temp", JObj tm)])
+        with ([(T "exp", JBool inexpr); (T "type", JInt (pushpop_ord ty))] ++ fs_field (fs_written fstart) ++ [(T "temp", JObj tm)]).
+      rewrite read_el_shape_01, Hrd. destruct ty; reflexivity.
 Qed.
 
-
 Lemma elements_roundtrip l : forallb (wf_element_b root) l = true ->
-  exists js, mapM (write_element sw root) l = Ok js /\ read_elements root js = Ok (map (norm_element sw) l).
+  exists js, mapM (write_element sw root) l = Ok js /\ read_elements sw root js = Ok (map (norm_element sw) l).
 Proof.
   induction l as [|e l IH]; intros H.
   - exists []. split; reflexivity.
@@ -592,21 +625,21 @@ Proof.
 Qed.
 
 Lemma read_thread_shape_0 js ti :
-  read_thread root [(T "callstack", JArr js); (T "threadIndex", ti)]
+  read_thread sw root [(T "callstack", JArr js); (T "threadIndex", ti)]
   = (do i <- or_bad "Invalid thread index" (j_as_i64 ti);
-     do els <- read_elements root js;
+     do els <- read_elements sw root js;
      Ok (mkThread els ptr_null (Z.to_N (to_u64 i)))).
 Proof. reflexivity. Qed.
 Lemma read_thread_shape_1 js ti p :
-  read_thread root [(T "callstack", JArr js); (T "threadIndex", ti); (T "previousContentObject", JStr p)]
+  read_thread sw root [(T "callstack", JArr js); (T "threadIndex", ti); (T "previousContentObject", JStr p)]
   = (do i <- or_bad "Invalid thread index" (j_as_i64 ti);
-     do els <- read_elements root js;
+     do els <- read_elements sw root js;
      do prev <- pointer_at_path root (path_parse (Some p));
      Ok (mkThread els prev (Z.to_N (to_u64 i)))).
 Proof. reflexivity. Qed.
 
 Lemma thread_roundtrip_lemma t : wf_thread_b root t = true ->
-  exists o, write_thread panics sw root t = Ok (JObj o) /\ read_thread root o = Ok (norm_thread sw root t).
+  exists o, write_thread panics sw root t = Ok (JObj o) /\ read_thread sw root o = Ok (norm_thread sw root t).
 Proof.
   unfold wf_thread_b. intros H. apply andb_true_iff in H as [H Hi]. apply andb_true_iff in H as [Hels Hprev].
   destruct t as [els prev idx]. cbn [th_cs th_prev th_index] in *.
@@ -627,7 +660,7 @@ Qed.
 (* CallStack::write_json / load_json *)
 Lemma threads_roundtrip l : forallb (wf_thread_b root) l = true ->
   exists js, mapM (write_thread panics sw root) l = Ok js
-             /\ forall acc, read_threads_into panics root js acc = (Ok tt, acc ++ map (norm_thread sw root) l).
+             /\ forall acc, read_threads_into panics sw root js acc = (Ok tt, acc ++ map (norm_thread sw root) l).
 Proof.
   induction l as [|t l IH]; intros H.
   - exists []. split; [reflexivity|]. intros acc. cbn. now rewrite app_nil_r.
@@ -638,8 +671,8 @@ Proof.
 Qed.
 
 Lemma load_callstack_shape cs0 ts tc :
-  load_callstack panics root cs0 [(T "threads", JArr ts); (T "threadCounter", tc)]
-  = (let '(r, l) := read_threads_into panics root ts [] in
+  load_callstack panics sw root cs0 [(T "threads", JArr ts); (T "threadCounter", tc)]
+  = (let '(r, l) := read_threads_into panics sw root ts [] in
      let cs1 := (cs0 <| cs_threads := [] |>) <| cs_threads := l |> in
      match r with
      | Ok _ => match ssite_res panics S_cs_counter_i64 (j_as_i64 tc) with
@@ -654,7 +687,7 @@ Proof. reflexivity. Qed.
 
 Lemma callstack_roundtrip cs : wf_callstack_b root cs = true ->
   exists o, write_callstack panics sw root cs = Ok (JObj o)
-            /\ forall cs0, load_callstack panics root cs0 o = (Ok tt, norm_callstack sw root cs).
+            /\ forall cs0, load_callstack panics sw root cs0 o = (Ok tt, norm_callstack sw root cs).
 Proof.
   unfold wf_callstack_b. intros H. apply andb_true_iff in H as [Hts Hc].
   destruct (threads_roundtrip (cs_threads cs) Hts) as (js & Hws & Hrs).
@@ -862,7 +895,7 @@ Lemma wct_loop cs choices :
     /\ (forall k, (forall c, In c choices -> k <> show_N (choice_tidx c)) -> assoc k jct = assoc k jct0)
     /\ (forall c, In c choices -> cs_thread_with_index cs (choice_tidx c) = None ->
         exists th o, ch_thread c = Some th /\ assoc (show_N (choice_tidx c)) jct = Some (JObj o)
-                     /\ read_thread root o = Ok (norm_thread sw root th)).
+                     /\ read_thread sw root o = Ok (norm_thread sw root th)).
 Proof.
   induction choices as [|c l IH]; intros Hwf Hnd jct0 done0.
   - exists jct0. cbn. rewrite app_nil_r. split; [reflexivity|]. split; [reflexivity|]. intros c [].
@@ -899,7 +932,7 @@ Lemma load_choice_threads_roundtrip cs jcto choices :
   forallb (wf_choice_b root) choices = true ->
   (forall c, In c choices -> cs_thread_with_index cs (choice_tidx c) = None ->
      exists th o, ch_thread c = Some th /\ obind jcto (jget_t (show_N (choice_tidx c))) = Some (JObj o)
-                  /\ read_thread root o = Ok (norm_thread sw root th)) ->
+                  /\ read_thread sw root o = Ok (norm_thread sw root th)) ->
   load_flow_choice_threads panics root (norm_callstack sw root cs) jcto (map loaded_choice choices)
   = Ok (map (norm_choice sw root (norm_callstack sw root cs)) choices).
 Proof.
@@ -921,7 +954,7 @@ Definition flow_read_tail (name : text) (jcs jout jch : json) (jcto : option jso
   do ca <- ssite_res panics S_flow_choices_arr (j_as_arr jch);
   do choices <- read_choices panics sw S_flow_choice_downcast ca;
   do cso <- ssite_res panics S_flow_cs_obj (j_as_obj jcs);
-  do cs <- load_callstack_res panics root cso;
+  do cs <- load_callstack_res panics sw root cso;
   do choices' <- load_flow_choice_threads panics root cs jcto choices;
   Ok (mkFlow name cs out choices' false).
 
@@ -948,7 +981,7 @@ Proof.
   rewrite wct_unfold.
   destruct (wct_loop cs (fl_choices f) Hch Hnd [] []) as (jct & Hf & _ & Hspec).
   rewrite Hwcs, Hwo, Hf. cbn [bind app]. unfold jfield.
-  assert (Hcsres : load_callstack_res panics root ocs = Ok (norm_callstack sw root cs)).
+  assert (Hcsres : load_callstack_res panics sw root ocs = Ok (norm_callstack sw root cs)).
   { unfold load_callstack_res. rewrite Hrcs. reflexivity. }
   destruct jct as [|kv jct'] eqn:Ej.
   - eexists. split; [reflexivity|]. cbn [is_nil app]. rewrite flow_shape_0. unfold flow_read_tail.
@@ -1619,3 +1652,475 @@ Proof.
   rewrite Hg. rewrite (own_path_reparse root cp path Hwf Hv Hg). rewrite Hr. cbn [sr_pos].
   rewrite pos_eqb_refl. unfold is_cont_at, cont_at in *. destruct (obj_at root cp) as [[]|]; try discriminate. reflexivity.
 Qed.
+
+(* ================================================================= *)
+(*  re-saving a loaded state                                          *)
+(* ================================================================= *)
+Section Resave.
+Variable panics : ssite -> bool.
+Variable sw : save_switches.
+Variable root : container.
+
+Lemma write_value_norm v : write_value sw (norm_value sw v) = write_value sw v.
+Proof.
+  destruct v; try reflexivity. cbn [norm_value write_value]. unfold write_ink_list, norm_list. cbn [l_items l_init_names].
+  destruct (ssw_origins_written sw) eqn:Eo; destruct (is_nil (l_items l)) eqn:En; cbn; try reflexivity.
+Qed.
+
+Lemma write_rtobject_norm o : write_rtobject sw (norm_obj sw o) = write_rtobject sw o.
+Proof. destruct o; try reflexivity. cbn [norm_obj write_rtobject]. now rewrite write_value_norm. Qed.
+
+Lemma write_list_rt_objs_norm l : write_list_rt_objs sw (map (norm_obj sw) l) = write_list_rt_objs sw l.
+Proof.
+  unfold write_list_rt_objs. f_equal. induction l as [|o l IH]; [reflexivity|].
+  cbn [map mapM]. now rewrite write_rtobject_norm, IH.
+Qed.
+
+Lemma write_dictionary_norm m : write_dictionary_values sw (norm_valmap sw m) = write_dictionary_values sw m.
+Proof.
+  unfold write_dictionary_values. f_equal. generalize (@nil (text * json)).
+  induction m as [|[k v] m IH]; intros acc; [reflexivity|].
+  cbn [norm_valmap map fold_left fst snd]. rewrite write_value_norm. apply IH.
+Qed.
+
+Lemma is_nil_norm_valmap m : is_nil (norm_valmap sw m) = is_nil m.
+Proof. destruct m; reflexivity. Qed.
+
+Lemma write_element_norm e : write_element sw root (norm_element sw e) = write_element sw root e.
+Proof.
+  destruct e as [[pc pi] inexpr temps ty evalh fstart]. unfold write_element, norm_element, norm_ptr, ptr_is_null.
+  cbn [el_ptr el_inexpr el_temps el_type ptr_c ptr_i]. rewrite is_nil_norm_valmap, write_dictionary_norm.
+  destruct pc; reflexivity.
+Qed.
+
+Lemma mapM_ext_in {A B} (f g : A -> Res B) l : (forall x, In x l -> f x = g x) -> mapM f l = mapM g l.
+Proof.
+  induction l as [|x l IH]; intros H; [reflexivity|]. cbn. rewrite H by now left.
+  destruct (g x); try reflexivity. cbn. rewrite IH; [reflexivity|]. intros y Hy. apply H. now right.
+Qed.
+
+Lemma mapM_map {A B C} (f : B -> Res C) (g : A -> B) l : mapM f (map g l) = mapM (fun x => f (g x)) l.
+Proof. induction l as [|x l IH]; [reflexivity|]. cbn. now rewrite IH. Qed.
+
+Lemma write_thread_norm t : wf_thread_b root t = true ->
+  write_thread panics sw root (norm_thread sw root t) = write_thread panics sw root t.
+Proof.
+  unfold wf_thread_b. intros H. apply andb_true_iff in H as [H _]. apply andb_true_iff in H as [_ Hprev].
+  destruct t as [els prev idx]. unfold write_thread, norm_thread. cbn [th_cs th_prev th_index] in *.
+  rewrite mapM_map. rewrite (mapM_ext_in _ (write_element sw root)) by (intros; apply write_element_norm).
+  destruct (mapM (write_element sw root) els); try reflexivity. cbn [bind].
+  unfold prev_ok_b in Hprev. unfold norm_prev.
+  destruct (reload_prev root prev) as [q| |] eqn:Er; rewrite ?Er in Hprev; try discriminate.
+  unfold reload_prev in Er. destruct (ptr_is_null prev) eqn:En.
+  - inversion Er; subst q. reflexivity.
+  - destruct (ptr_resolve root prev) as [pos|] eqn:Ep; [|discriminate].
+    rewrite ?Ep in Hprev.
+    destruct (ptr_resolve root q) as [pos'|] eqn:Eq; rewrite ?Eq in Hprev; cbn in Hprev; [|discriminate].
+    apply pos_eqb_eq in Hprev. subst pos'.
+    assert (Hq : ptr_is_null q = false).
+    { unfold ptr_is_null, ptr_resolve in *. destruct (ptr_c q); [reflexivity|discriminate]. }
+    rewrite Hq. reflexivity.
+Qed.
+
+Lemma write_callstack_norm cs : wf_callstack_b root cs = true ->
+  write_callstack panics sw root (norm_callstack sw root cs) = write_callstack panics sw root cs.
+Proof.
+  unfold wf_callstack_b. intros H. apply andb_true_iff in H as [Hts _].
+  unfold write_callstack, norm_callstack. cbn [cs_threads cs_counter]. rewrite mapM_map.
+  rewrite (mapM_ext_in _ (write_thread panics sw root)); [reflexivity|].
+  intros t Hin. apply write_thread_norm. eapply forallb_In; eassumption.
+Qed.
+
+(* the choiceThreads loop on the reloaded choices *)
+Lemma find_index_some cs i t : cs_thread_with_index cs i = Some t -> th_index t = i.
+Proof.
+  unfold cs_thread_with_index. intros H. apply find_some in H as [_ H]. now apply N.eqb_eq in H.
+Qed.
+
+Hypothesis Hflag : ssw_invis_written sw = ssw_invis_read sw.
+
+Lemma write_choice_norm ncs c idx : wf_choice_b root c = true ->
+  write_choice sw (norm_choice sw root ncs c) idx = write_choice sw c idx.
+Proof.
+  intros H. destruct (wf_choice_thread root c H) as (th & Eth & _).
+  unfold norm_choice. rewrite Eth. unfold write_choice.
+  cbn [ch_text ch_index ch_source ch_target ch_tags ch_invisible].
+  rewrite <- Hflag. destruct (ssw_invis_written sw), (ch_invisible c); reflexivity.
+Qed.
+
+Definition nc_pair (ncs : callstack) (cn : choice * N) : choice * N := (norm_choice sw root ncs (fst cn), snd cn).
+
+Lemma wct_norm cs choices : forallb (wf_choice_b root) choices = true ->
+  forall jct0 done0,
+  foldM (wct_step panics sw root (norm_callstack sw root cs))
+        (map (norm_choice sw root (norm_callstack sw root cs)) choices)
+        (jct0, map (nc_pair (norm_callstack sw root cs)) done0)
+  = (do r <- foldM (wct_step panics sw root cs) choices (jct0, done0);
+     Ok (fst r, map (nc_pair (norm_callstack sw root cs)) (snd r))).
+Proof.
+  set (ncs := norm_callstack sw root cs).
+  induction choices as [|c l IH]; intros Hwf jct0 done0; [reflexivity|].
+  cbn in Hwf. apply andb_true_iff in Hwf as [Hc Hl].
+  destruct (wf_choice_thread root c Hc) as (th & Eth & Hth & _ & _ & Eidx & _).
+  cbn [map foldM]. unfold wct_step at 1 3. rewrite Eth.
+  unfold norm_choice at 1. rewrite Eth. cbn [ch_thread ssite_res bind].
+  assert (Hlook : cs_thread_with_index ncs (th_index th) = option_map (norm_thread sw root) (cs_thread_with_index cs (th_index th)))
+    by apply thread_with_index_norm.
+  destruct (cs_thread_with_index cs (th_index th)) as [t|] eqn:Ecs; cbn [option_map] in Hlook; rewrite Hlook.
+  - (* the thread is on the call stack: nothing is written, before and after *)
+    assert (Hi : th_index (norm_thread sw root t) = th_index th) by (cbn; now apply find_index_some in Ecs).
+    rewrite Hi, Hlook. cbn [bind].
+    change (map (nc_pair ncs) done0 ++ [(norm_choice sw root ncs c, th_index th)])
+      with (map (nc_pair ncs) done0 ++ map (nc_pair ncs) [(c, th_index th)]).
+    rewrite <- map_app. apply (IH Hl).
+  - change (th_index (norm_thread sw root th)) with (th_index th). rewrite Hlook.
+    rewrite (write_thread_norm th Hth).
+    destruct (write_thread panics sw root th) as [jt| |]; cbn [bind]; try reflexivity.
+    change (map (nc_pair ncs) done0 ++ [(norm_choice sw root ncs c, th_index th)])
+      with (map (nc_pair ncs) done0 ++ map (nc_pair ncs) [(c, th_index th)]).
+    rewrite <- map_app. apply (IH Hl).
+Qed.
+
+Lemma write_flow_norm ccs name f : wf_flow_b root ccs f = true ->
+  forall any_cs,
+  write_flow panics sw root any_cs (norm_flow sw root ccs name f) = write_flow panics sw root ccs f.
+Proof.
+  unfold wf_flow_b. intros H any_cs. apply andb_true_iff in H as [H Hnd]. apply andb_true_iff in H as [H Hch].
+  apply andb_true_iff in H as [Hcs Hout].
+  unfold write_flow, norm_flow. cbn [fl_alias_cs fl_cs fl_out fl_choices].
+  set (cs := if fl_alias_cs f then ccs else fl_cs f) in *.
+  rewrite (write_callstack_norm cs Hcs). destruct (write_callstack panics sw root cs); try reflexivity. cbn [bind].
+  rewrite write_list_rt_objs_norm. destruct (write_list_rt_objs sw (fl_out f)); try reflexivity. cbn [bind].
+  rewrite !wct_unfold. pose proof (wct_norm cs (fl_choices f) Hch [] []) as Hw. cbn [map] in Hw. rewrite Hw.
+  destruct (wct_loop panics sw root cs (fl_choices f) Hch Hnd [] []) as (jct & Hf & _). rewrite Hf. cbn [bind fst snd app].
+  rewrite !map_map. cbn [fst snd nc_pair].
+  assert (Hm : map (fun x : choice => write_choice sw (norm_choice sw root (norm_callstack sw root cs) x) (choice_tidx x))
+                   (fl_choices f)
+               = map (fun x : choice => write_choice sw x (choice_tidx x)) (fl_choices f)).
+  { apply map_ext_in. intros c Hin. apply write_choice_norm. eapply forallb_In; eassumption. }
+  rewrite Hm. reflexivity.
+Qed.
+
+End Resave.
+
+Section ResaveState.
+Variable panics : ssite -> bool.
+Variable sw : save_switches.
+Variable root : container.
+Hypothesis Hflag : ssw_invis_written sw = ssw_invis_read sw.
+Hypothesis Hlist : ssw_list_eq_origins sw = true -> ssw_origins_written sw = true.
+
+(* ---------- the "flows" object ---------- *)
+Definition write_flows_part (s : sstate) : Res (list (text * json)) :=
+  let cur := ss_flow s in
+  let ccs := fl_cs cur in
+  do jcur <- write_flow panics sw root ccs cur;
+  foldM (fun acc (kf : text * flow) =>
+           do j <- write_flow panics sw root ccs (snd kf); Ok (assoc_set (fst kf) j acc))
+        (match ss_named s with Some nf => nf | None => [] end)
+        [(fl_name cur, jcur)].
+
+(* a saved flow entry and the flow it is reloaded as *)
+Definition resave_rel (kj : text * json) (kf : text * flow) : Prop :=
+  fst kj = fst kf /\ fl_name (snd kf) = fst kf
+  /\ forall any_cs, write_flow panics sw root any_cs (snd kf) = Ok (snd kj).
+
+Lemma forall2_assoc_set_gen {A B} (R : text * A -> text * B -> Prop) k v v' l l' :
+  (forall kj kf, R kj kf -> fst kj = fst kf) ->
+  Forall2 R l l' -> R (k, v) (k, v') -> Forall2 R (assoc_set k v l) (assoc_set k v' l').
+Proof.
+  intros Hkey H Hr. induction H as [|[k1 j1] [k2 f2] l l' Hh Ht IH]; cbn.
+  - constructor; [assumption|constructor].
+  - pose proof (Hkey _ _ Hh) as Hk. cbn in Hk. subst k2. destruct (text_eqb k k1).
+    + constructor; assumption.
+    + constructor; [exact Hh|exact IH].
+Qed.
+
+Lemma write_flows_resave_rel ccs named :
+  forallb (fun kf : text * flow => wf_flow_b root ccs (snd kf)) named = true ->
+  forall accj accf, Forall2 resave_rel accj accf ->
+  forall fd,
+    foldM (fun acc (kf : text * flow) =>
+             do j <- write_flow panics sw root ccs (snd kf); Ok (assoc_set (fst kf) j acc)) named accj = Ok fd ->
+    Forall2 resave_rel fd
+         (fold_left (fun acc (kf : text * flow) => assoc_set (fst kf) (norm_flow sw root ccs (fst kf) (snd kf)) acc)
+                    named accf).
+Proof.
+  induction named as [|[k f] named IH]; intros Hwf accj accf Hrel fd Hfd.
+  - cbn in Hfd. inversion Hfd; subst. exact Hrel.
+  - cbn in Hwf. apply andb_true_iff in Hwf as [Hf Hn].
+    cbn [foldM fold_left fst snd] in *.
+    destruct (write_flow panics sw root ccs f) as [j| |] eqn:Hw; cbn [bind] in Hfd; try discriminate.
+    eapply IH; [assumption| |exact Hfd].
+    apply forall2_assoc_set_gen; [intros kj kf (H & _); exact H|assumption|].
+    split; [reflexivity|]. split; [reflexivity|]. intros any_cs. cbn [snd].
+    rewrite (write_flow_norm panics sw root Hflag ccs k f Hf any_cs). exact Hw.
+Qed.
+
+Lemma assoc_set_head {V} k (v : V) k0 v0 l :
+  exists v1, assoc_set k v ((k0, v0) :: l) = (k0, v1) :: match (if text_eqb k k0 then None else Some tt) with
+                                                         | None => l | Some _ => assoc_set k v l end.
+Proof. cbn. destruct (text_eqb k k0) eqn:E; [apply text_eqb_eq in E; subst; eexists; reflexivity|eexists; reflexivity]. Qed.
+
+Lemma flows_as_saved_head s : exists f0 rest, flows_as_saved sw root s = (fl_name (ss_flow s), f0) :: rest.
+Proof.
+  unfold flows_as_saved. generalize (match ss_named s with Some nf => nf | None => [] end). intros named.
+  generalize (norm_flow sw root (fl_cs (ss_flow s)) (fl_name (ss_flow s)) (ss_flow s)). intros f0.
+  generalize (@nil (text * flow)). revert f0.
+  induction named as [|[k f] named IH]; intros f0 tl; [eexists; eexists; reflexivity|].
+  cbn [fold_left fst snd]. destruct (assoc_set_head k (norm_flow sw root (fl_cs (ss_flow s)) k f) (fl_name (ss_flow s)) f0 tl) as (v1 & ->).
+  apply IH.
+Qed.
+
+(* appending distinct keys with the monadic fold *)
+Lemma foldM_resave ccs' rest_f : forall rest_j acc,
+  Forall2 resave_rel rest_j rest_f ->
+  keys_nodup_b rest_f = true -> (forall kf, In kf rest_f -> assoc (fst kf) acc = None) ->
+  foldM (fun acc (kf : text * flow) =>
+           do j <- write_flow panics sw root ccs' (snd kf); Ok (assoc_set (fst kf) j acc)) rest_f acc
+  = Ok (acc ++ rest_j).
+Proof.
+  induction rest_f as [|[k f] rest_f IH]; intros rest_j acc Hrel Hnd Hacc.
+  - inversion Hrel; subst. cbn. now rewrite app_nil_r.
+  - inversion Hrel as [|[k' j] ? rj ? Hh Ht]; subst. destruct Hh as (Hk & _ & Hw). cbn [fst snd] in *. subst k'.
+    apply keys_nodup_tail in Hnd as [Hk0 Hnd].
+    cbn [foldM fst snd]. rewrite (Hw ccs'). cbn [bind].
+    pose proof (Hacc (k, f) (or_introl eq_refl)) as Hf. cbn [fst] in Hf. rewrite (assoc_set_fresh _ _ _ Hf).
+    rewrite (IH rj); [now rewrite <- app_assoc|assumption|assumption|].
+    intros [k2 f2] Hin. cbn [fst]. rewrite assoc_app_none by (apply (Hacc (k2, f2)); now right).
+    cbn. destruct (text_eqb k2 k) eqn:E; [|reflexivity].
+    apply text_eqb_eq in E. subst. exfalso. exact (assoc_none_not_in _ _ Hk0 _ Hin).
+Qed.
+
+Lemma assoc_remove_none {V} k (l : list (text * V)) : assoc k l = None -> assoc_remove k l = l.
+Proof.
+  induction l as [|[k' v] l IH]; cbn; [reflexivity|]. destruct (text_eqb k k'); [discriminate|].
+  intros H. now rewrite IH.
+Qed.
+
+Lemma assoc_remove_head {V} k (v : V) l : assoc_remove k ((k, v) :: l) = assoc_remove k l.
+Proof. cbn. now rewrite text_eqb_refl. Qed.
+
+Lemma write_flows_part_norm t s :
+  wf_flow_b root (fl_cs (ss_flow s)) (ss_flow s) = true ->
+  forallb (fun kf : text * flow => wf_flow_b root (fl_cs (ss_flow s)) (snd kf))
+          (match ss_named s with Some nf => nf | None => [] end) = true ->
+  write_flows_part (norm_sstate sw root t s) = write_flows_part s.
+Proof.
+  intros Hcur Hnamed. unfold write_flows_part at 2.
+  set (ccs := fl_cs (ss_flow s)) in *. set (cur := fl_name (ss_flow s)).
+  destruct (write_flow panics sw root ccs (ss_flow s)) as [jcur| |] eqn:Hwc.
+  2,3: destruct (flow_roundtrip_lemma panics sw root ccs cur (ss_flow s) Hcur) as (o & Hw & _); congruence.
+  cbn [bind].
+  set (named := match ss_named s with Some nf => nf | None => [] end) in *.
+  destruct (write_flows_rel panics sw root ccs named Hnamed [(cur, jcur)] [(cur, norm_flow sw root ccs cur (ss_flow s))]) as (fd & Hfd & _).
+  { destruct (flow_roundtrip_lemma panics sw root ccs cur (ss_flow s) Hcur) as (o & Hw & Hr).
+    rewrite Hwc in Hw. inversion Hw; subst jcur.
+    constructor; [|constructor]. split; [reflexivity|]. exists o. split; [reflexivity|exact Hr]. }
+  rewrite Hfd.
+  assert (Hrel0 : Forall2 resave_rel [(cur, jcur)] [(cur, norm_flow sw root ccs cur (ss_flow s))]).
+  { constructor; [|constructor]. split; [reflexivity|]. split; [reflexivity|]. intros any_cs. cbn [snd].
+    rewrite (write_flow_norm panics sw root Hflag ccs cur (ss_flow s) Hcur any_cs). exact Hwc. }
+  pose proof (write_flows_resave_rel ccs named Hnamed _ _ Hrel0 fd Hfd) as Hrel.
+  change (fold_left _ named _) with (flows_as_saved sw root s) in Hrel.
+  pose proof (flows_as_saved_nodup sw root s) as Hnd.
+  destruct (flows_as_saved_head s) as (f0 & rest & Hhead). fold cur in Hhead.
+  unfold write_flows_part, norm_sstate. fold cur. rewrite Hhead in *.
+  inversion Hrel as [|[k0 j0] ? rest_j ? Hh Ht]; subst. destruct Hh as (Hk & Hname & Hw0). cbn [fst snd] in *. subst k0.
+  apply keys_nodup_tail in Hnd as [Hcur_rest Hnd_rest].
+  destruct rest as [|r0 rest'].
+  - (* a single flow *)
+    inversion Ht; subst. cbn [length Nat.eqb]. cbn [ss_flow ss_named]. rewrite Hname, (Hw0 (fl_cs f0)). reflexivity.
+  - cbn [length Nat.eqb assoc]. rewrite text_eqb_refl. cbn [ss_flow ss_named].
+    rewrite assoc_remove_head, (assoc_remove_none _ _ Hcur_rest).
+    rewrite Hname, (Hw0 (fl_cs f0)). cbn [bind].
+    rewrite (foldM_resave (fl_cs f0) (r0 :: rest') rest_j [(cur, j0)] Ht Hnd_rest); [reflexivity|].
+    intros [k2 f2] Hin. cbn. destruct (text_eqb k2 cur) eqn:E; [|reflexivity].
+    apply text_eqb_eq in E. subst. exfalso. exact (assoc_none_not_in _ _ Hcur_rest _ Hin).
+Qed.
+
+
+(* ---------- variables ---------- *)
+Lemma val_equal_norm v d : val_equal sw (norm_value sw v) d = val_equal sw v d.
+Proof.
+  destruct v; try reflexivity. destruct d; try reflexivity.
+  cbn [norm_value val_equal]. unfold list_val_equal, norm_list, list_eqb. cbn [l_items l_init_names].
+  f_equal. destruct (ssw_list_eq_origins sw) eqn:E; [|reflexivity].
+  rewrite (Hlist eq_refl). cbn [andb]. destruct (is_nil (l_items l)); reflexivity.
+Qed.
+
+Definition reloaded_value (G : list (text * value)) (kd : text * value) : value :=
+  match assoc (fst kd) G with
+  | Some v => if val_equal sw v (snd kd) then snd kd else norm_value sw v
+  | None => snd kd
+  end.
+
+Lemma norm_globals_map D G : keys_nodup_b D = true ->
+  norm_globals sw D G = map (fun kd : text * value => (fst kd, reloaded_value G kd)) D.
+Proof.
+  intros H. unfold norm_globals.
+  exact (fold_assoc_set_nodup0 (fun kd : text * value => reloaded_value G kd) D H).
+Qed.
+
+Lemma write_vars_fold_resave D G : forall gl dl acc,
+  map fst gl = map fst dl ->
+  (forall kd, In kd dl -> assoc (fst kd) D = Some (snd kd)) ->
+  (forall kv, In kv gl -> assoc (fst kv) G = Some (snd kv)) ->
+  (forall kd, In kd dl -> val_equal sw (snd kd) (snd kd) = true) ->
+  fold_left (write_vars_step sw D) (map (fun kd : text * value => (fst kd, reloaded_value G kd)) dl) acc
+  = fold_left (write_vars_step sw D) gl acc.
+Proof.
+  induction gl as [|[k v] gl IH]; intros [|[k' d] dl] acc Hk HD HG Hrefl; try discriminate; [reflexivity|].
+  cbn in Hk. inversion Hk; subst k'. cbn [map fold_left fst snd].
+  assert (Estep : write_vars_step sw D acc (k, reloaded_value G (k, d)) = write_vars_step sw D acc (k, v)).
+  { unfold write_vars_step, reloaded_value. cbn [fst snd].
+    pose proof (HD (k, d) (or_introl eq_refl)) as E1. pose proof (HG (k, v) (or_introl eq_refl)) as E2.
+    cbn [fst snd] in E1, E2. rewrite E1, E2.
+    destruct (val_equal sw v d) eqn:E.
+    - pose proof (Hrefl (k, d) (or_introl eq_refl)) as E3. cbn [snd] in E3. now rewrite E3.
+    - now rewrite val_equal_norm, E, write_value_norm. }
+  rewrite Estep. apply IH; [assumption| | |]; intros x Hx; [apply HD|apply HG|apply Hrefl]; now right.
+Qed.
+
+Lemma write_vars_resave v defaults_t :
+  wf_valmap_b (vs_globals v) = true -> keys_nodup_b (vs_defaults v) = true ->
+  defaults_t = vs_defaults v ->
+  map fst (vs_globals v) = map fst (vs_defaults v) ->
+  forallb (fun kd : text * value => val_equal sw (snd kd) (snd kd)) (vs_defaults v) = true ->
+  forall b c p,
+  write_vars sw (mkVarstate (norm_globals sw defaults_t (vs_globals v)) defaults_t b c p) = write_vars sw v.
+Proof.
+  intros Hg Hd -> Hkeys Hrefl b c p. unfold write_vars. cbn [vs_globals vs_defaults]. f_equal.
+  rewrite (norm_globals_map _ _ Hd).
+  change (fun (acc : list (text * json)) (kv : text * value) => _) with (write_vars_step sw (vs_defaults v)).
+  apply write_vars_fold_resave.
+  - exact Hkeys.
+  - intros [k d] Hin. cbn [fst snd]. now apply nodup_in_assoc.
+  - intros [k x] Hin. cbn [fst snd]. apply nodup_in_assoc; [|assumption].
+    unfold wf_valmap_b in Hg. now apply andb_true_iff in Hg as [Hg _].
+  - intros kd Hin. eapply forallb_In in Hrefl; eassumption.
+Qed.
+
+(* ---------- the whole state ---------- *)
+Definition write_rest (s : sstate) (flows : list (text * json)) : Res json :=
+  do jeval <- write_list_rt_objs sw (ss_eval s);
+  do jdiv <- (if ptr_is_null (ss_diverted s) then Ok []
+              else do p <- ptr_path root (ss_diverted s);
+                   match p with
+                   | Some pa => Ok [jfield "currentDivertTarget" (JStr (path_string pa))]
+                   | None => Panic (T "model:write_json:get_path of a non-null pointer")
+                   end);
+  Ok (JObj ([jfield "flows" (JObj flows);
+             jfield "currentFlowName" (JStr (fl_name (ss_flow s)));
+             jfield "variablesState" (write_vars sw (ss_vars s));
+             jfield "evalStack" jeval]
+            ++ jdiv
+            ++ [jfield "visitCounts" (write_int_dictionary (ss_visits s));
+                jfield "turnIndices" (write_int_dictionary (ss_turns s));
+                jfield "turnIdx" (JInt (ss_turn s));
+                jfield "storySeed" (JInt (ss_seed s));
+                jfield "previousRandom" (JInt (ss_prev_random s));
+                jfield "inkSaveVersion" (JInt ink_save_state_version);
+                jfield "inkFormatVersion" (JInt INK_VERSION_CURRENT_)])).
+
+Lemma write_sstate_split s :
+  write_sstate panics sw root s = (do flows <- write_flows_part s; write_rest s flows).
+Proof.
+  unfold write_sstate, write_flows_part, write_rest.
+  destruct (write_flow panics sw root (fl_cs (ss_flow s)) (ss_flow s)); reflexivity.
+Qed.
+
+Lemma flows_as_saved_names s : Forall (fun kf : text * flow => fl_name (snd kf) = fst kf) (flows_as_saved sw root s).
+Proof.
+  unfold flows_as_saved. generalize (match ss_named s with Some nf => nf | None => [] end). intros named.
+  assert (H0 : Forall (fun kf : text * flow => fl_name (snd kf) = fst kf)
+                 [(fl_name (ss_flow s), norm_flow sw root (fl_cs (ss_flow s)) (fl_name (ss_flow s)) (ss_flow s))])
+    by (constructor; [reflexivity|constructor]).
+  revert H0. generalize [(fl_name (ss_flow s), norm_flow sw root (fl_cs (ss_flow s)) (fl_name (ss_flow s)) (ss_flow s))].
+  induction named as [|[k f] named IH]; intros acc H; [assumption|].
+  cbn [fold_left fst snd]. apply IH. clear IH.
+  induction acc as [|[k' f'] acc IHa]; cbn.
+  - constructor; [reflexivity|constructor].
+  - inversion H; subst. destruct (text_eqb k k'); constructor; try assumption; [reflexivity|now apply IHa].
+Qed.
+
+Lemma norm_sstate_flow_name t s : fl_name (ss_flow (norm_sstate sw root t s)) = fl_name (ss_flow s).
+Proof.
+  destruct (flows_as_saved_head s) as (f0 & rest & Hhead).
+  pose proof (flows_as_saved_names s) as Hn. unfold norm_sstate. rewrite Hhead in *.
+  inversion Hn; subst. cbn [fst snd] in *.
+  destruct rest; cbn [length Nat.eqb ss_flow assoc]; [assumption|]. now rewrite text_eqb_refl.
+Qed.
+
+Theorem resave_equiv_lemma t w :
+  wf_world_b w = true -> root_of w = root -> root_of t = root ->
+  vs_defaults (ss_vars (w_state t)) = vs_defaults (ss_vars (w_state w)) ->
+  ptr_is_null (ss_diverted (w_state t)) = true ->
+  map fst (vs_globals (ss_vars (w_state w))) = map fst (vs_defaults (ss_vars (w_state w))) ->
+  forallb (fun kd : text * value => val_equal sw (snd kd) (snd kd)) (vs_defaults (ss_vars (w_state w))) = true ->
+  write_state panics sw (norm_save sw root t w) = write_state panics sw w.
+Proof.
+  intros Hwf Hrw Hrt Hdef Hdiv0 Hkeys Hrefl.
+  unfold write_state, norm_save. rewrite <- set_st_eq. rewrite root_of_set_st, w_state_set_st, Hrw, Hrt.
+  unfold wf_world_b, wf_sstate_b in Hwf. rewrite Hrw in Hwf. set (s := w_state w) in *.
+  apply andb_true_iff in Hwf as [Hwf _]. apply andb_true_iff in Hwf as [Hwf _].
+  apply andb_true_iff in Hwf as [Hwf _]. apply andb_true_iff in Hwf as [Hwf _].
+  apply andb_true_iff in Hwf as [Hwf _]. apply andb_true_iff in Hwf as [Hwf _].
+  apply andb_true_iff in Hwf as [Hwf _]. apply andb_true_iff in Hwf as [Hwf Hd].
+  apply andb_true_iff in Hwf as [Hwf Hg]. apply andb_true_iff in Hwf as [Hcur Hnamed].
+  assert (Hnamed' : forallb (fun kf : text * flow => wf_flow_b root (fl_cs (ss_flow s)) (snd kf))
+                            (match ss_named s with Some nf => nf | None => [] end) = true).
+  { destruct (ss_named s); [now apply andb_true_iff in Hnamed as [Hn _]|reflexivity]. }
+  rewrite !write_sstate_split. rewrite (write_flows_part_norm (w_state t) s Hcur Hnamed').
+  destruct (write_flows_part s) as [flows| |]; try reflexivity. cbn [bind].
+  unfold write_rest. rewrite norm_sstate_flow_name.
+  assert (Hev : ss_eval (norm_sstate sw root (w_state t) s) = map (norm_obj sw) (ss_eval s)).
+  { unfold norm_sstate. destruct (Nat.eqb _ 1); [reflexivity|]. destruct (assoc _ _); reflexivity. }
+  assert (Hdv : ss_diverted (norm_sstate sw root (w_state t) s)
+                = if ptr_is_null (ss_diverted s) then ss_diverted (w_state t) else ss_diverted s).
+  { unfold norm_sstate. destruct (Nat.eqb _ 1); [reflexivity|]. destruct (assoc _ _); reflexivity. }
+  assert (Hvs : ss_vars (norm_sstate sw root (w_state t) s)
+                = mkVarstate (norm_globals sw (vs_defaults (ss_vars (w_state t))) (vs_globals (ss_vars s)))
+                             (vs_defaults (ss_vars (w_state t))) (vs_batch (ss_vars (w_state t)))
+                             (vs_changed (ss_vars (w_state t))) (vs_patch (ss_vars (w_state t)))).
+  { unfold norm_sstate. destruct (Nat.eqb _ 1); [reflexivity|]. destruct (assoc _ _); reflexivity. }
+  assert (Hot : ss_visits (norm_sstate sw root (w_state t) s) = ss_visits s
+                /\ ss_turns (norm_sstate sw root (w_state t) s) = ss_turns s
+                /\ ss_turn (norm_sstate sw root (w_state t) s) = ss_turn s
+                /\ ss_seed (norm_sstate sw root (w_state t) s) = ss_seed s
+                /\ ss_prev_random (norm_sstate sw root (w_state t) s) = ss_prev_random s).
+  { unfold norm_sstate. destruct (Nat.eqb _ 1); [repeat split|]. destruct (assoc _ _); repeat split. }
+  destruct Hot as (H1 & H2 & H3 & H4 & H5). rewrite Hev, Hdv, Hvs, H1, H2, H3, H4, H5.
+  rewrite write_list_rt_objs_norm.
+  rewrite (write_vars_resave (ss_vars s) _ Hg Hd Hdef Hkeys Hrefl).
+  destruct (ptr_is_null (ss_diverted s)) eqn:En; [rewrite Hdiv0|rewrite En]; reflexivity.
+Qed.
+
+End ResaveState.
+
+Lemma texts_eq_b_eq a b : texts_eq_b a b = true -> a = b.
+Proof.
+  revert b. induction a as [|x a IH]; destruct b as [|y b]; cbn; intros H; try discriminate; [reflexivity|].
+  apply andb_true_iff in H as [H1 H2]. apply text_eqb_eq in H1. apply IH in H2. now subst.
+Qed.
+
+(* the re-save theorem with its executable hypotheses *)
+Theorem resave_equiv_b panics sw t w :
+  ssw_invis_written sw = ssw_invis_read sw ->
+  (ssw_list_eq_origins sw = true -> ssw_origins_written sw = true) ->
+  wf_world_b w = true -> resave_hyp_b sw w = true ->
+  root_of t = root_of w ->
+  vs_defaults (ss_vars (w_state t)) = vs_defaults (ss_vars (w_state w)) ->
+  ptr_is_null (ss_diverted (w_state t)) = true ->
+  write_state panics sw (norm_save sw (root_of w) t w) = write_state panics sw w.
+Proof.
+  intros Hf Hl Hwf Hh Hroot Hdef Hdiv. unfold resave_hyp_b in Hh.
+  apply andb_true_iff in Hh as [Hh _]. apply andb_true_iff in Hh as [Hk Hr].
+  apply (resave_equiv_lemma panics sw (root_of w) Hf Hl t w); try assumption; try reflexivity.
+  now apply texts_eq_b_eq.
+Qed.
+
+Lemma switches_coherent_now :
+  ssw_invis_written save_switches_now = ssw_invis_read save_switches_now
+  /\ (ssw_list_eq_origins save_switches_now = true -> ssw_origins_written save_switches_now = true).
+Proof. split; [reflexivity|]. cbn. intros H. first [exact H|reflexivity|discriminate]. Qed.
